@@ -13,6 +13,12 @@ real lock table), stores nothing after the stop request; the later worker comple
 plain sequential evaluation.  Thorough tier: real `jug execute` processes on a file store get real SIGTERM / SIGINT."""
 from . import exectrace as X
 
+# hypotheses of this property's theorems that are other properties of the list: their ties are re-run (reduced) by
+# harness/main.py after this module's run(); a failure there is reported as a violation of this property
+HYPOTHESES = {
+    'C05': (0.5, 'dump is all-or-nothing: a write that does not complete leaves no readable result'),
+}
+
 EVIDENCE = dict(
     level='proof',
     rule='one case = (program, worker configuration, schedule, stop instant / exit check) -> one recorded run + follow-up run; '
@@ -23,7 +29,7 @@ EVIDENCE = dict(
 
 
 def o_c12(sc, res):
-    out = X.oracle_c12(sc, res) + X.oracle_sound(res) + X.oracle_c02(res.trace)
+    out = X.oracle_c12(sc, res) + X.oracle_unexplained_results(sc, res) + X.oracle_sound(res) + X.oracle_c02(res.trace)
     if sc.get('finisher'):
         out += X.oracle_complete(res)
     return out
